@@ -27,6 +27,8 @@ M0 == [calls |-> <<>>,        \* k -> call record (function with a growing domai
        ready |-> FALSE,
        cleanup |-> FALSE,     \* the harness' own clean-up has begun: nothing after it is judged except the final line
        closeB |-> {}, closeE |-> {}, waitB |-> {}, waitE |-> {},
+       closingCS |-> FALSE,   \* a critical-section snapshot has shown connClosing: the linearization point of Close
+       lastQ |-> 0,           \* handler-queue length in the last snapshot
        stalled |-> {},        \* transport writes that are blocked because the peer stopped draining
        notices |-> {},        \* wire ids named by cancellation notices handed to the transport
        notifOk |-> {},        \* refs of notifications the transport accepted
@@ -62,7 +64,8 @@ OnCallEnd(e) ==
            /\ (e.kind = "ctx" => c.cancelled)
            /\ (e.kind \in {"closed", "other"} => (m.closeSeq > 0 \/ m.fault \/ m.rdDown \/ m.trClosed))
            /\ (e.kind = "wireerror" /\ e.code # -32050 => m.fault))
-  /\ Check(l, "C01.FailFastAfterTermination", c.afterTerm => (e.kind = "closed" /\ e.t = c.beginT))
+  \* (a caller that also gave up at that very moment may see its own context's error instead)
+  /\ Check(l, "C01.FailFastAfterTermination", c.afterTerm => ((e.kind = "closed" \/ (e.kind = "ctx" /\ c.cancelled)) /\ e.t = c.beginT))
   /\ Check(l, "C04.PromptReturn", (c.cancelled /\ c.ended = 0) => e.t = c.cancelT)
   /\ m' = [m EXCEPT !.calls = Put(m.calls, e.k, [c EXCEPT !.ended = c.ended + 1])]
 
@@ -82,10 +85,11 @@ OnWrBegin(e) ==
            (e.kind = "resp" /\ m.ready /\ Healthy /\ e.ref \in DOMAIN m.reqs /\ ~m.reqs[e.ref].dup) =>
                \A r2 \in DOMAIN m.reqs : (m.reqs[r2].dseq < m.reqs[e.ref].dseq /\ m.reqs[r2].kind \in {"notif", "init"} /\ m.reqs[r2].started)
                                              => m.reqs[r2].ended)
-  \* a cancellation notice must name a call that the caller really abandoned
+  \* a cancellation notice never names a call of ours that is in flight and was not abandoned by its caller
+  \* (it may name a call that was refused before it reached the transport: nobody can be affected by that)
   /\ Check(l, "C04.OnlyMatchingSent",
            (e.kind = "notif" /\ e.method = "notifications/cancelled" /\ m.ready) =>
-               \E k \in DOMAIN m.calls : m.calls[k].wire = e.cref /\ m.calls[k].cancelled)
+               \A k \in DOMAIN m.calls : m.calls[k].wire = e.cref => m.calls[k].cancelled)
 
 OnWrEnd(e) ==
   LET bad == e.outcome \in {"broken", "rejected"} IN
@@ -104,7 +108,7 @@ OnDeliver(e) ==
               ELSE [m EXCEPT !.calls = Put(m.calls, e.k, [Call(e.k) EXCEPT !.resps = Append(@, [tag |-> e.tag, variant |-> e.variant])])]
     [] e.kind \in {"call", "notif", "init"} ->   \* "init": the initialize call, which is handled synchronously like a notification
          m' = [m EXCEPT !.reqs = Put(m.reqs, e.r, [NoReq EXCEPT !.kind = e.kind, !.id = e.id, !.dseq = e.seq, !.dup = e.dup,
-                                                               !.afterClose = (m.closeSeq > 0)]),
+                                                               !.afterClose = FALSE]),
                         !.idn = IF e.kind \in {"call", "init"} THEN Put(m.idn, e.id, [Idn(e.id) EXCEPT !.deliv = @ + 1]) ELSE @]
     [] e.kind = "cancel" ->
          m' = [m EXCEPT !.reqs = [r \in DOMAIN m.reqs |-> IF m.reqs[r].id = e.id /\ m.reqs[r].kind = "call"
@@ -201,7 +205,13 @@ Step(e) ==
     [] e.ev = "close.end"  -> m' = [m EXCEPT !.term = TRUE, !.closeE = @ \cup {e.c}]
     [] e.ev = "wait.begin" -> m' = [m EXCEPT !.waitB = @ \cup {e.w}]
     [] e.ev = "wait.end"   -> m' = [m EXCEPT !.term = TRUE, !.waitE = @ \cup {e.w}]
-    [] e.ev = "cs"         -> m' = [m EXCEPT !.term = @ \/ (e.s.done /\ m.ready)]
+    \* a request the read loop takes off the transport after Close's critical section has run is a new request
+    [] e.ev = "rd.read"    -> m' = IF e.kind \in {"call", "notif", "init"} /\ e.r \in DOMAIN m.reqs
+                                   THEN [m EXCEPT !.reqs = Put(m.reqs, e.r, [Req(e.r) EXCEPT !.afterClose = m.closingCS])] ELSE m
+    [] e.ev = "cs"         -> /\ m' = [m EXCEPT !.term = @ \/ (e.s.done /\ m.ready), !.closingCS = @ \/ (e.s.closing /\ m.ready),
+                                                !.lastQ = e.s.queue]
+                              \* once Close has taken effect nothing more is put on the handler queue (what is already queued is still handled)
+                              /\ Check(l, "C05.NothingEnqueuedAfterClose", (m.ready /\ m.closingCS) => e.s.queue <= m.lastQ)
     [] e.ev = "tr.close"   -> OnTrClose(e)
     [] e.ev = "notify.end" -> OnNotifyEnd(e)
     [] e.ev = "step"       -> OnStep(e)
